@@ -59,9 +59,9 @@ def run(ctx) -> None:
     r17_3(ctx)
     r17_4(ctx)
     ctx.floor("modules", 11)
-    ctx.floor("await_sites", 70)
-    ctx.floor("async_for_sites", 25)
-    ctx.floor("async_with_sites", 18)
+    ctx.floor("await_sites", 45)
+    ctx.floor("async_for_sites", 15)
+    ctx.floor("async_with_sites", 10)
     ctx.floor("standins", len(STANDINS))
 
 
